@@ -378,6 +378,13 @@ func (sc *scn) scenario() *qx.Scenario {
 				if e.Answer != "ok" && e.Answer != "err:27" {
 					brokersFine = false
 				}
+				limit := 3 * time.Second
+				if e.Key == protocol.JoinGroup || e.Key == protocol.SyncGroup {
+					limit = 9 * time.Second // Timeout + rebalance/session timeout
+				}
+				if e.AnsweredAt-e.At >= limit {
+					brokersFine = false // answered after the client's timeout: the client saw a failure
+				}
 			}
 			if lastMember != "" && !left && stillMember && brokersFine {
 				viol("no-leave-on-close", fmt.Sprintf("Close returned but no LeaveGroup for member %q reached the coordinator (leaves: %v)", lastMember, leaves))
